@@ -47,7 +47,12 @@ def run(ctx, rep, tier):
                     if not ok:
                         failures.setdefault((name, combo), detail + f" [regions inhabited: {popcount_regions(I)}]")
                 r = ve.run_method(c1, "isdisjoint", X, Y)
-                rec("isdisjoint", r is ((dx & dy) == 0), f"isdisjoint returned {r}, sets {'are' if (dx & dy) == 0 else 'are not'} disjoint")
+                both_inverted = k1 == k2 == "inv" or (c1 == c2 == "InvertedRegexCharClass")
+                if both_inverted:
+                    # a DFA state can carry one inverted set only (its Else): two inverted sets must always be split, i.e. never be reported disjoint (C07.f)
+                    rec("isdisjoint", r is False, f"isdisjoint returned {r} for two inverted sets: both would stay in the regex alphabet and the second overwrites the first in _create_dfa_state")
+                else:
+                    rec("isdisjoint", r is ((dx & dy) == 0), f"isdisjoint returned {r}, sets {'are' if (dx & dy) == 0 else 'are not'} disjoint")
                 r = ve.run_method(c1, "split", X, Y)
                 if not (isinstance(r, tuple) and len(r) == 3 and all(isinstance(v, VClass) for v in r)):
                     rec("split", False, f"split returned {r!r}")
@@ -238,3 +243,51 @@ def run(ctx, rep, tier):
     bu = ast.unparse(model.func("BinaryRegexMatch._convert_raw_regex_unimportant"))
     rep.check(model.has("BinaryRegexMatch._convert_raw_regex_unimportant", "RegexCharClass((chr(int(byte.value, base=16)),))"), "C07.f", "BinaryRegexMatch._convert_raw_regex_unimportant", "hex pair -> that byte", "binary regex byte decoding changed")
     rep.check(g.terminal_regex("REGEX_BYTE") == "[0-9a-fA-F]{2}", "C07.f", "grammar:REGEX_BYTE", "two hex digits", "REGEX_BYTE terminal changed")
+
+
+# ---------------------------------------------------------------------------------------------------------------- C07.f / g / h
+def _alphabet_and_simplifier(ctx, rep, tier):
+    import ast, re
+    from ..srcmodel import walk_no_nested, raised_class
+    model = ctx.model
+    # C07.f one inverted class per alphabet
+    rep.rule("C07.f", "the regex alphabet holds at most one inverted class: two inverted sets are never reported disjoint (C07.a), every non-disjoint pair is split, "
+                      "split(inverted, inverted) yields one inverted and two plain classes, empty pieces are dropped")
+    g = "RegexMatch._make_disjoint_groupings"
+    ok = model.has(g, "if not a.isdisjoint(b):\n    ...\n    overlap, newa, newb = a.split(b)\n    ...") and \
+        model.has(g, "total_char_classes[ia] = newa\ntotal_char_classes[ib] = newb") and model.has(g, "total_char_classes.append(overlap)")
+    rep.check(ok, "C07.f", g, "every pair that is not reported disjoint is replaced by (overlap, a-only, b-only)", "splitting loop of the class grouping changed")
+    ret = [n for n in walk_no_nested(model.func(g)) if isinstance(n, ast.Return)]
+    rep.check(len(ret) == 1 and "if not total_char_classes[i].empty()" in ast.unparse(ret[0]), "C07.f", g, "empty pieces are dropped from the alphabet", "empty classes reach the NFA alphabet")
+    sp = model.func("InvertedRegexCharClass.split")
+    arm = next((n for n in sp.body if isinstance(n, ast.If) and ast.unparse(n.test) == "isinstance(other, InvertedRegexCharClass)"), None)
+    okk = arm is not None and isinstance(arm.body[-1], ast.Return) and isinstance(arm.body[-1].value, ast.Tuple) and \
+        [ast.unparse(e.func) if isinstance(e, ast.Call) else "?" for e in arm.body[-1].value.elts] == ["InvertedRegexCharClass", "RegexCharClass", "RegexCharClass"]
+    rep.check(okk, "C07.f", "InvertedRegexCharClass.split", "split of two inverted sets: one inverted overlap, two plain remainders", "splitting two inverted sets no longer reduces the number of inverted classes: "
+              "the grouping loop may not terminate / several inverted classes reach one DFA state")
+    # C07.g empty sets refused
+    rep.rule("C07.g", "a bracket set that matches nothing ([z-a], [^\\w\\W], b/[^00-ff]/) is refused: the states leading to it would report the mismatch late")
+    for q in ("RegexMatch._visit_all_char_classes", "BinaryRegexMatch._visit_all_char_classes"):
+        ok = model.has(q, "if inverted:\n    incoming_set = incoming_set.invert()\nif incoming_set.empty():\n    raise IllegalParseTree($$m, regex_tree)\nreturn set((incoming_set,))")
+        rep.check(ok, "C07.g", q, "set branch: invert if needed, refuse when empty, else return the class", "an empty character set is compiled into an alternation without branches: the dead states before it "
+                  "report the mismatch one byte late or only at end-of-input")
+    # C07.h simplifier
+    rep.rule("C07.h", "the regex tree simplifier only maps itself over children and unwraps singleton alternations / sequences (no member is ever dropped)")
+    q = "RegexMatch._simplify_regex_tree"
+    fn = model.func(q)
+    assigns = [n for n in walk_no_nested(fn) if isinstance(n, ast.Assign) and any("sub_match" in ast.unparse(t) for t in n.targets)]
+    allowed = {"r.sub_matches = [self._simplify_regex_tree(x) for x in r.sub_matches]", "r.sub_match = self._simplify_regex_tree(r.sub_match)"}
+    bad = [ast.unparse(a) for a in assigns if ast.unparse(a) not in allowed]
+    rep.check(not bad and len(assigns) == 2, "C07.h", q, "children are only replaced by their simplification", f"the simplifier rewrites members beyond simplification: {bad[:2]} - dropping an empty "
+              "sequence from an alternation removes the empty string from the language (`/(a{0}|b)c/` rejects `c`)")
+    rets = sorted(ast.unparse(n) for n in walk_no_nested(fn) if isinstance(n, ast.Return))
+    rep.check(rets == sorted(["return r", "return r", "return r", "return r.sub_matches[0]"]) and model.has(q, "if len(r.sub_matches) == 1:\n    return r.sub_matches[0]"), "C07.h", q,
+              "only a singleton alternation / sequence is unwrapped", f"simplifier returns {rets}")
+
+
+_run_f = run
+
+
+def run(ctx, rep, tier):
+    _run_f(ctx, rep, tier)
+    _alphabet_and_simplifier(ctx, rep, tier)
